@@ -79,30 +79,39 @@ Definition create (content : str) (el : element) (st et : token) : removable_ran
 
 Inductive rtree := RT (r : removable_range) (children : list rtree).
 
+(** The decision of collect_removable_ranges for one element: [None] = neither ready nor pending
+    (skip, or tag name not registered), [Some true] = ready, [Some false] = pending. *)
+Definition status (cfg : config) (el : element) : option bool :=
+  if is_skip el then None
+  else match evaluator cfg (el_name el) with
+       | None => None
+       | Some ev => Some (ev el)
+       end.
+
+(** The range of one element, with the [!range.is_empty()] filter. *)
+Definition element_range (cfg : config) (content : str) (pending : bool)
+           (el : element) (st et : token) : option (removable_range * bool) :=
+  let r :=
+    match status cfg el with
+    | Some true => Some (create content el st et, true)
+    | Some false => if pending then Some (create content el st et, false) else None
+    | None => None
+    end in
+  match r with
+  | Some (((a, b), closed), is_removal) => if a <? b then r else None
+  | None => None
+  end.
+
 (** collect_removable_ranges *)
 Fixpoint collect_part (cfg : config) (content : str) (pending : bool) (p : part)
   : list rtree * list rtree :=
   match p with
   | PText _ => ([], [])
   | PElem el st et children =>
-    let range :=
-      if is_skip el then None
-      else match evaluator cfg (el_name el) with
-           | None => None
-           | Some ev =>
-             let r :=
-               if ev el then Some (create content el st et, true)
-               else if pending then Some (create content el st et, false) else None in
-             match r with
-             | Some (((a, b), closed), is_removal) =>
-               if a <? b then r else None       (* !range.is_empty() *)
-             | None => None
-             end
-           end in
     let '(ch, pch) :=
       fold_left (fun acc c => let '(x, y) := collect_part cfg content pending c in
                               (fst acc ++ x, snd acc ++ y)) children ([], []) in
-    match range with
+    match element_range cfg content pending el st et with
     | Some (r, true) => ([RT r ch], pch)
     | Some (r, false) => (ch, [RT r pch])
     | None => (ch, pch)
